@@ -31,8 +31,13 @@ def apply_replace(file, old, new):
     open(p,'w').write(s.replace(old,new)); return True, ""
 def apply_diff(path):
     rc,out=sh(f"git apply {path}", REPO); return rc==0, out
+def build_all():
+    # one build of the harness and the CLI per change; the checks then run without rebuilding
+    rc,out=sh("cd harness && cargo build --release --offline 2>&1 | tail -3", VERIF)
+    rc2,out2=sh("cargo build --offline --manifest-path /repo/Cargo.toml --bin aisparser --target-dir /verif/target/cli 2>&1 | tail -3", VERIF)
+    return ("error" not in out) and ("error" not in out2), out+out2
 def run_check(prop, tier):
-    t=time.time(); rc,out=sh(f"./check {prop} {tier}", VERIF); dt=time.time()-t
+    t=time.time(); rc,out=sh(f"AISVERIF_NOBUILD=1 ./check {prop} {tier}", VERIF); dt=time.time()-t
     viol=[l for l in out.splitlines() if l.startswith("VIOLATION")]
     detail=[l.strip() for l in out.splitlines() if l.strip().startswith("sub-check")]
     return rc, dt, (detail[0][:260] if detail else (out.strip().splitlines()[-1][:200] if out.strip() else ""))
@@ -68,18 +73,27 @@ def main():
             if not tp:
                 rows.append((kind,name,"-","not-a-valid-mutant (pinned tests fail or do not build)",tout[:100])); print(rows[-1]); continue
             todo = ALL if (allprops or kind=="benign") else props
-            for p in todo:
-                rc,dt,detail=run_check(p,"quick")
-                tier="quick"
+            okb,bout=build_all()
+            if not okb:
+                rows.append((kind,name,"-","harness-or-cli-does-not-build (exit 2 for every check)",bout[-200:])); print(rows[-1]); continue
+            from concurrent.futures import ThreadPoolExecutor
+            def one(p):
+                rc,dt,detail=run_check(p,"quick"); tier="quick"
                 if rc==0 and thorough and kind!="benign":
                     rc,dt,detail=run_check(p,"thorough"); tier="thorough"
+                return p,rc,dt,detail,tier
+            with ThreadPoolExecutor(max_workers=6) as ex:
+                results=list(ex.map(one, todo))
+            for p,rc,dt,detail,tier in results:
                 verdict={0:"silent",1:"DETECTED",2:"infra-error"}.get(rc,f"exit {rc}")
                 expected = (p in props) and kind!="benign"
                 rows.append((kind,name,p,f"{verdict} ({tier}, {dt:.1f}s)"+("" if expected or rc==0 else " [not labelled]"),detail))
                 print(rows[-1], flush=True)
         finally:
             revert()
-    with open(f"{VERIF}/mutants/RESULTS-{'benign' if '--benign' in args else 'mutants'}.md","w") as f:
+    tag = 'benign' if '--benign' in args else ('seeded' if '--seeded' in args and only else 'mutants')
+    if only and tag == 'mutants': tag = 'partial'
+    with open(f"{VERIF}/mutants/RESULTS-{tag}.md","w") as f:
         f.write("| kind | change | property | result | first failing sub-check |\n|---|---|---|---|---|\n")
         for r in rows: f.write("| "+" | ".join(str(x).replace("|","\\|") for x in r)+" |\n")
     missed=[r for r in rows if r[0]!="benign" and r[3].startswith("silent") and "[not labelled]" not in r[3]]
